@@ -144,6 +144,8 @@ def step9 (cfg : Cfg) (m : M9) (e : Ev) : Except String M9 :=
       if rs.any (fun r => isEhloReply r && (capLines r).any (fun l => capName l == "AUTH".b)) &&
           !(m.tls || cfg.insecureAuth) then .error "C09 AUTH advertised on an insecure connection"
       else if rs.any (fun r => r.code == 235) && !m.authed then .error "C09 235 without a completed exchange"
+      else if rs.any (fun r => r.code == 334) && m.authed then
+        .error "C09 a challenge (334) was sent after the mechanism had reported success: the exchange went on past its end"
       else .ok m
   | _ => .ok m
 
@@ -212,6 +214,7 @@ structure M10 where
   seenTls : Bool := false
   greeted : Bool := false       -- the greeting (the first reply) has been written
   upgraded : Bool := false      -- a later 220 has been written: STARTTLS was accepted, what follows travels inside TLS
+  dbInTls : Bool := false       -- a delivery has been started since the upgrade
 deriving Repr, DecidableEq, Inhabited
 
 def step10 (cfg : Cfg) (implicit : Bool) (m : M10) (e : Ev) : Except String M10 :=
@@ -235,6 +238,9 @@ def step10 (cfg : Cfg) (implicit : Bool) (m : M10) (e : Ev) : Except String M10 
         (((capLines r).contains "STARTTLS".b) != (cfg.tlsAvail && !m.tls) ||
          ((capLines r).contains "REQUIRETLS".b) != (m.tls && cfg.reqtls))
       if bad then .error "C10 STARTTLS/REQUIRETLS advertised inconsistently with the TLS state"
+      -- "… not allowed during message transfer" inside TLS although no transfer has been opened inside TLS
+      else if m.upgraded && !m.dbInTls && rs.any (fun r => r.code == 502 && r.lines.any (fun l => containsSub l "during message transfer".b)) then
+        .error "C10 a chunked transfer opened in plaintext survived the upgrade (a command inside TLS was refused because of it)"
       else
         let later := if m.greeted then rs else rs.drop 1
         -- a 220 after the greeting: STARTTLS accepted; "550 … Handshake error" right behind it: the upgrade did not happen
@@ -243,6 +249,7 @@ def step10 (cfg : Cfg) (implicit : Bool) (m : M10) (e : Ev) : Except String M10 
           else if r.code == 550 && r.lines.any (fun l => containsSub l "Handshake error".b) then false
           else u) m.upgraded
         .ok { m with greeted := m.greeted || !rs.isEmpty, upgraded := up }
+  | .dataBegin _ _ => .ok (if m.upgraded then { m with dbInTls := true } else m)
   | _ => .ok m
 
 def check10 (cfg : Cfg) (implicit : Bool) (evs : List Ev) : List String :=
